@@ -662,7 +662,8 @@ func cliWork(line string) string {
 // generation
 
 var taskPool = []string{"build", "lint", "docs", "pack", "gen", "vet", "ship"}
-var docPool = []string{"Run the thing", "Second doc", "Compile all of it", "Makes a package", "X", "Checks style and more", "needs >= 80% of statements (100%!)", "%d files, %s each %%"}
+var docPool = []string{"Run the thing", "Second doc", "Compile all of it", "Makes a package", "X", "Checks style and more", "needs >= 80% of statements (100%!)", "%d files, %s each %%",
+	"Compile the bindings for C#", "#1 priority", "Usage: make it so:", ": starts with a colon", "a # in the middle", "ends with a dot.", "...", "(in parentheses)", "tilde ~ and 'quotes'"}
 var statusPool = []int{1, 1, 2, 3, 7, 126, 127, 128, 130, 200, 254, 255}
 
 type gen struct {
@@ -748,8 +749,13 @@ func (g *gen) genCmd(ti, ci, failPct int, lit map[string]string) cmdSpec {
 	src := "echo K" + mark + " >> $LOG"
 	k := cmdSpec{}
 	interpExtra := ""
-	shape := g.rng.Intn(9)
+	shape := g.rng.Intn(11)
 	switch shape {
+	case 9:
+		// text that looks like JSON escapes, HTML and format verbs: it must come back from the report byte for byte
+		txt := g.pick(`a\u0026b`, `x\u003cy\u003e`, `<b>&amp;</b>`, `100%d%s`, `q\"uote\\`, `tab\there`)
+		src += "; echo '" + txt + "'"
+		k.out = txt + "\n"
 	case 0:
 	case 1:
 		src += "; echo o" + mark
@@ -789,7 +795,11 @@ func (g *gen) genCmd(ti, ci, failPct int, lit map[string]string) cmdSpec {
 		if g.chance(1, 3) {
 			k.status = 1 + g.rng.Intn(255)
 		}
-		if k.status == 1 && g.chance(1, 2) {
+		if g.chance(1, 5) {
+			// the failing statement is NOT the last one of the command line: the line stops there (errexit)
+			k.status = 1
+			tail = "; test -f /nonexistent/file; echo never" + mark
+		} else if k.status == 1 && g.chance(1, 2) {
 			tail = "; false"
 		} else {
 			tail = "; exit " + strconv.Itoa(k.status)
